@@ -437,3 +437,25 @@ Lemma oversized_add_refuted :
   = [OUnit; OIdx 0; OIdx 1; OIdx 2; OLen 3; OItem 6; OUnit; OUnit; OItems [5; 6; 7]%Z None; OUnit] /\
   snd (spec_run (abs empty_world) hist_C07b) = snd (run fixed_cfg empty_world hist_C07b).
 Proof. vm_compute. repeat split. Qed.
+
+(* ------------------------------------------------------------------------------------------- *)
+(* associated families: an example through Inject / Merge / OpenR / GetA                         *)
+(* ------------------------------------------------------------------------------------------- *)
+Definition A0 := mkPath 1 0 XNc.
+Definition A1 := mkPath 1 1 XNc.
+Definition OUTA := mkPath 0 8 XStore.
+(* base stores [10;11;12] and [13;14]; the associated records 110..114 of the same flights, split [2;3] *)
+Definition hist_assoc : list op :=
+  [Create P0 None; Add (TJ 10 None); Add (TJ 11 None); Add (TJ 12 None); Close;
+   Create P1 None; Add (TJ 13 None); Add (TJ 14 None); Close;
+   Inject A0 [110; 111]%Z; Inject A1 [112; 113; 114]%Z;
+   Merge OUT [P0; P1] None; Merge OUTA [A0; A1] None;
+   OpenR OUT (Some 1); GetA 0 [OUTA]; GetA 1 [OUTA]; GetA 2 [OUTA]; GetA 3 [OUTA]; GetA 4 [OUTA]; GetA 5 [OUTA]; Len; Close].
+
+Lemma assoc_demo :
+  snd (run fixed_cfg empty_world hist_assoc) =
+  [OUnit; OIdx 0; OIdx 1; OIdx 2; OUnit; OUnit; OIdx 0; OIdx 1; OUnit; OUnit; OUnit; OUnit; OUnit;
+   OUnit; OItemA 10 [110%Z]; OItemA 11 [111%Z]; OItemA 12 [112%Z]; OItemA 13 [113%Z]; OItemA 14 [114%Z]; OErr EIndex;
+   OLen 5; OUnit].
+Proof. vm_compute. reflexivity. Qed.
+
